@@ -63,6 +63,10 @@ def scenarios(tier):
     out.append(Scenario('main', pre='none', pidfile=True, E=2, nw=1, pat='stubborn', w=0, gw=0, socks=2, again=True))
     if tier != 'quick':
         out.append(Scenario('main', pre='restart', pidfile=True, E=2, nw=2, pat='first-stubborn', w=0, gw=0, socks=1, again=True))
+    # a daemon with nothing to do for a long while (the periodic check, its only timer, is 30 s away / switched off): a
+    # signal that arrives while the loop sits in its selector is acted upon only if its handler wakes the loop up
+    for cd in (30, -1):
+        out.append(Scenario('main', pre='none', pidfile=True, E=1, nw=1, pat='obedient', w=0, gw=0, socks=1, check_delay=cd))
     for pc in PIDFILE_CASES:
         out.append(Scenario('pidfile', case=pc, nodet=True))
     return out
@@ -154,7 +158,10 @@ def run(scn, ch):
     if od:
         ws.append(('od', dict(cmd='worker --fd $(circus.sockets.web)', numprocesses=2, graceful_timeout=G, on_demand=True,
                               use_sockets=True)))
-    write_ini(ini, ws, circus={'warmup_delay': scn.gw}, sockets=socks)
+    base_circus = {'warmup_delay': scn.gw}
+    if scn.p.get('check_delay') is not None:
+        base_circus['check_delay'] = scn.p['check_delay']
+    write_ini(ini, ws, circus=base_circus, sockets=socks)
     world = World(ch, [WSpec('a', behaviours=pattern(scn.pat)), WSpec('b'), WSpec('od', behaviours=pattern(scn.pat))])
     clients = []
     world.arbiters = []
@@ -198,6 +205,14 @@ def run(scn, ch):
                     clients.append(c)
                     world.run(until=lambda w: stopped() or w.terminated is not None or
                               len(w.procs_of('od', [RUNNING])) >= 2, horizon=2.5, menu=win.menu)
+                if scn.p.get('check_delay') is not None and world.terminated is None and not stopped():
+                    # nothing to do for the daemon: 0.7 s later the loop still sits in its selector - an L-point of its own
+                    world.run(horizon=0.7)
+                    evs = term_menu(world)
+                    c = world.ex.choose('L', [e.label for e in evs], first_is_default=False)
+                    if c > 0:
+                        world.trace.append((CLOCK.now, 'inject', evs[c - 1].label))
+                        evs[c - 1].apply(world)
                 # the pre-history
                 while state['pre_i'] < len(pre) and not stopped() and world.terminated is None:
                     cmd, props = pre[state['pre_i']]
